@@ -2,6 +2,7 @@ package checks
 
 import (
 	"fmt"
+	"github.com/wokdav/gopki/generator/db"
 	"sort"
 	"strings"
 
@@ -373,6 +374,32 @@ func c18Exec(x *engine.Ctx, cc any) {
 				x.Violation("C18/wrote-on-invalid/"+tag+"/"+c18Reason(why), fmt.Sprintf("hierarchy is invalid (%s), run said %q, yet the directory changed: %v", why, summary, diff))
 			}
 			x.Nontrivial(fmt.Sprintf("inv %v %v %d", c.Issuer, c.AMode, c.Layout))
+			// the refusal does not depend on which generate-flags are set: the same directory with every flag
+			// switched off, and with generate-all alone
+			for _, st := range []db.UpdateStrategy{db.UpdateNone, db.UpdateAll} {
+				w2 := before.Clone()
+				ok2, sum2 := false, ""
+				if mode == 0 {
+					r2 := drive.Run(w2, st, nil)
+					if r2.Panic != "" {
+						x.Violation("C18/panic/"+r2.PanicSite, "panic: "+r2.Panic)
+						continue
+					}
+					ok2, sum2 = r2.OK(), r2.Summary()
+				} else {
+					r2, err := drive.RunCLI(w2, st, "")
+					if err != nil {
+						x.Cap("cli binary could not be run: " + err.Error())
+						continue
+					}
+					x.TraceValidated(1)
+					ok2, sum2 = r2.Exit == 0, fmt.Sprintf("cli exit=%d %s", r2.Exit, short(r2.Stdout, 200))
+				}
+				x.Transition(1)
+				if ok2 || len(simfs.Diff(before, w2)) > 0 {
+					x.Violation(fmt.Sprintf("C18/accepted-invalid/%s/%s flags=%05b", tag, c18Reason(why), int(st)), fmt.Sprintf("hierarchy is invalid (%s) but the run with flags %05b reported %s; changed: %v", why, int(st), sum2, simfs.Diff(before, w2)))
+				}
+			}
 			continue
 		}
 		x.Outcome(fmt.Sprintf("%s valid n=%d", tag, c.N))
@@ -453,7 +480,7 @@ func init() {
 		ID:    "C18",
 		Level: "model_checking",
 		Rule: "every issuer function issuer:[n]->{none,0..n-1,undefined} for n<=4 (quick) / n<=6 (thorough); for n<=3 additionally every alias-mode vector in {file-derived, explicit unique, explicit = next entity's alias, explicit = next entity's file stem}^n x 5 directory layouts (incl. dots in directory and file names) and 6 suffix/letter-case variants x 4 layouts; for n in {2,3} every issuer function with two config files sharing directory and stem under 6 suffix pairs (alias collision); foreign files present; for n<=3 also with entity 0's artifact file in five odd states (hash line that is not base64 or too short or unterminated, empty file, plain text), which must not change the verdict. " +
-			"Each case builds the directory, runs Open+Plan+BulkUpdate on simfs (and the built CLI binary for the flagged subset) and compares with the model valid <=> all issuers defined, acyclic, aliases unique. non-trivial = distinct (issuer function, alias modes, layout, suffix) case that reached the verdict comparison",
+			"Each case builds the directory, runs Open+Plan+BulkUpdate on simfs (and the built CLI binary for the flagged subset) and compares with the model valid <=> all issuers defined, acyclic, aliases unique; an invalid directory is run again with every generate-flag off and with generate-all alone (still refused, nothing written). non-trivial = distinct (issuer function, alias modes, layout, suffix) case that reached the verdict comparison",
 		Bound:       map[string]string{"entities": "quick<=4, thorough<=6", "alias/layout/suffix variants": "n<=3"},
 		Assumptions: []string{"file stems are distinct per directory and non-empty (a.yaml + a.yml sharing a.pem is outside the statement's quantifier)", "keys are P-224 to keep generation cheap; C18 does not depend on the key type"},
 		Budget:      budgets(quickBudget, thoroughBudget),
